@@ -30,9 +30,11 @@ type c19Case struct {
 	Select []string     `json:"select"`
 	Prior  string       `json:"prior"` // empty | copy | listing | symlink | stale
 	Mem    bool         `json:"mem,omitempty"`
-	Big    int          `json:"big,omitempty"`   // xattr value length injected into one entry (framing sweep)
-	BigAt  int          `json:"bigat,omitempty"` // index of that entry in path order
-	Merge  bool         `json:"merge,omitempty"`
+	// Grow: the (in-memory) source's files deliver this many bytes more than their stat announces
+	Grow  int  `json:"grow,omitempty"`
+	Big   int  `json:"big,omitempty"`   // xattr value length injected into one entry (framing sweep)
+	BigAt int  `json:"bigat,omitempty"` // index of that entry in path order
+	Merge bool `json:"merge,omitempty"`
 	// FailFirst: before the judged transfer, another metadata-only receive (other tree, other destination) is
 	// aborted by this stream failure in the same process
 	FailFirst *xfer.Fault `json:"failfirst,omitempty"`
@@ -42,7 +44,7 @@ type c19Case struct {
 }
 
 func (c c19Case) String() string {
-	s := fmt.Sprintf("src=%s select=%v prior=%s mem=%v big=%d@%d merge=%v", c.Src, c.Select, c.Prior, c.Mem, c.Big, c.BigAt, c.Merge)
+	s := fmt.Sprintf("src=%s select=%v prior=%s mem=%v big=%d@%d merge=%v grow=%d", c.Src, c.Select, c.Prior, c.Mem, c.Big, c.BigAt, c.Merge, c.Grow)
 	if c.Scribble {
 		s += " selector-rewrites-stat"
 	}
@@ -87,7 +89,11 @@ func judgeC19(c c19Case) (string, string) {
 	}
 	var sfs fsutil.FS
 	if c.Mem || c.Big > 0 {
-		sfs = memfs.New(src)
+		m := memfs.New(src)
+		if c.Grow != 0 {
+			m.Resize = func(_ string, data []byte) []byte { return ResizeBytes(data, c.Grow) }
+		}
+		sfs = m
 	} else {
 		if err := fsmodel.Materialize(src, srcDir); err != nil {
 			return "infra", err.Error()
@@ -114,6 +120,18 @@ func judgeC19(c c19Case) (string, string) {
 		prior = fsmodel.Tree{{Path: listingName, Kind: fsmodel.File, Perm: 0600, Mtime: fsmodel.T0, Data: []byte("old listing, longer than the new one will be ..........................................................")}}
 	case "symlink":
 		prior = fsmodel.Tree{{Path: listingName, Kind: fsmodel.Symlink, Perm: 0777, Mtime: fsmodel.T0, Link: outside}}
+	case "copy-older":
+		// what an earlier receive of an earlier version of the source left: every regular file has the size it has now,
+		// other bytes, and a modification time in the same second but on the second (an unpacked archive)
+		for _, n := range src {
+			if n.Path != listingName && !strings.HasPrefix(n.Path, listingName+"/") {
+				if n.Kind == fsmodel.File && n.HL == 0 {
+					n.Data = fsmodel.Content(200+len(n.Path), len(n.Data))
+					n.Mtime = n.Mtime / 1e9 * 1e9
+				}
+				prior = append(prior, n)
+			}
+		}
 	case "stale-tmp":
 		// stale entries that carry the names the disk writer gives its temporaries (left by a killed receive, or simply
 		// files of an earlier source)
@@ -245,6 +263,9 @@ func judgeC19(c c19Case) (string, string) {
 	}
 	for _, n := range src {
 		if need[n.Path] && n.Path != listingName {
+			if c.Grow != 0 && n.Kind == fsmodel.File && n.HL == 0 && sel[n.Path] {
+				n.Data = ResizeBytes(n.Data, c.Grow) // what the source delivered is what is stored
+			}
 			want = append(want, n)
 		}
 	}
@@ -330,10 +351,10 @@ func c19Cases(tier string) []c19Case {
 				}
 				priors := []string{"empty"}
 				if mi == 0 || mask == (1<<len(paths))-1 || mask == 0 {
-					priors = []string{"empty", "copy", "listing", "symlink", "stale", "stale-tmp", "linked"}
+					priors = []string{"empty", "copy", "listing", "symlink", "stale", "stale-tmp", "linked", "copy-older"}
 				}
 				for _, pr := range priors {
-					if pr != "empty" && pr != "copy" && pr != "linked" {
+					if pr != "empty" && pr != "copy" && pr != "linked" && pr != "copy-older" {
 						out = append(out, c19Case{Src: t, Select: sel, Prior: pr, Merge: true})
 					}
 					out = append(out, c19Case{Src: t, Select: sel, Prior: pr})
@@ -389,6 +410,16 @@ func c19Cases(tier string) []c19Case {
 	}
 	for _, big := range []int{1, 70000, 200000} {
 		out = append(out, c19Case{Src: base, Select: []string{"b"}, Prior: "empty", Big: big}) // the oversized xattr itself cannot be stored on disk
+	}
+	// files that deliver more than their stat announces, among them files announced as empty
+	{
+		g := fsmodel.Tree{{Path: "Dockerfile", Kind: fsmodel.File, Perm: 0644, Mtime: fsmodel.T0 + 1}, {Path: "d", Kind: fsmodel.Dir, Perm: 0755, Mtime: fsmodel.T0 + 2},
+			{Path: "d/gen", Kind: fsmodel.File, Perm: 0644, Mtime: fsmodel.T0 + 3}, {Path: "d/five", Kind: fsmodel.File, Perm: 0644, Mtime: fsmodel.T0 + 4, Data: []byte("12345")}}
+		for _, grow := range []int{7, 40000} {
+			for _, sel := range [][]string{{"Dockerfile"}, {"d/gen", "d/five"}, {"Dockerfile", "d", "d/gen", "d/five"}} {
+				out = append(out, c19Case{Src: g, Select: sel, Prior: "empty", Mem: true, Grow: grow})
+			}
+		}
 	}
 	var many fsmodel.Tree
 	for i := 0; i < 900; i++ {
